@@ -7,9 +7,13 @@ struct BigCase {
     std::vector<long long> dimlen;                      // 0 = the unlimited dimension
     struct Var { int type = NC_INT; std::vector<int> dimids; };
     std::vector<Var> vars;
-    struct Acc { int var = 0, mode = 0 /* 0 blocking vara, 1 iput + wait_all, 2 blocking vars */, writer = 0; std::vector<long long> start, count, stride; };
+    struct Acc { int var = 0, mode = 0, writer = 0; std::vector<long long> start, count, stride; };
     std::vector<Acc> acc;
+    int split = 0;   // > 0: the first `split` variables are defined in a first define-mode session (enddef), the others after ncmpi_redef
+    int aggr = 0;    // > 0: the file is created with hint nc_num_aggrs_per_node = aggr (intra-node write aggregation)
 };
+// access modes: 0 blocking collective vara, 1 iput + wait_all (completes every pending request of the rank), 2 blocking vars, 3 iput left pending until the next mode-1 access (or the end),
+// 4 + 5: one collective put call in which rank `writer` of the mode-4 access and rank `writer` of the directly following mode-5 access (same variable) each write their own block
 BigCase bigcase_decode(const std::vector<long long> &v);
 std::vector<long long> bigcase_encode(const BigCase &c);
 std::string bigcase_text(const BigCase &c);
